@@ -10,7 +10,7 @@ EXPLANATION = ('Static rules on scheduler.rs: H1 OnceTask/FutureTask call their 
                'first poll of the task; H3 Remote::poll reads keep_running and polls the task under one guard of the handle cell and '
                'TaskHandle::unsubscribe clears the flag under the same cell (after unsubscribe returns the body neither runs nor starts); '
                'H5 value=Some is written only by Remote::poll after the inner future is Ready, so a handle reports closed only when the '
-               'task can no longer act; H6 all schedule impls are instances of one macro. Repeating tasks: C08.I1/I2, C16.E3. '
+               'task can no longer act; H6 all schedule impls are instances of one macro. H4 repeating tasks tick only after a Ready period timer that is re-armed with the period each time, count seq by +1 and stop when the task declines (same rules as C08.I1/I2, C16.E3). '
                'Does not decide virtual-time run orders.')
 ASSUMPTIONS = ['the timer future returned by new_timer completes no earlier than its duration (trusted dependency)']
 
@@ -30,7 +30,7 @@ def check(cx):
     res = []
     res += h1(cx) + h3(cx)
     if not cx.control:
-        res += h2(cx) + h5(cx) + h6(cx)
+        res += h2(cx) + h5(cx) + h6(cx) + h4(cx)
     return res
 
 
@@ -239,3 +239,12 @@ def h6(cx):
 def thorough():
     from ..witness import run_witnesses
     return run_witnesses(ID, ['w4'])
+
+
+def h4(cx):
+    """repeating tasks: once per period with consecutive sequence numbers until they decline (same rules as C08.I1/I2 and C16.E3)"""
+    from . import c08, c16
+    out = []
+    for f in c08.i12(cx) + c16.e3(cx):
+        out.append(Finding(ID, 'H4', f.rule + ':' + f.key, f.ok, f.msg, f.loc, f.witness))
+    return out
